@@ -208,6 +208,7 @@ pub const FIXTURE_DOC: &str = r#"<?xml version="1.0" encoding="utf-8"?>
  </ELEMENTS>
 </AR-PACKAGE>
 <AR-PACKAGE><SHORT-NAME>e</SHORT-NAME></AR-PACKAGE>
+<AR-PACKAGE><SHORT-NAME>f</SHORT-NAME><ELEMENTS></ELEMENTS><AR-PACKAGES><AR-PACKAGE><SHORT-NAME>x9</SHORT-NAME></AR-PACKAGE><AR-PACKAGE><SHORT-NAME>a2</SHORT-NAME></AR-PACKAGE></AR-PACKAGES></AR-PACKAGE>
 <AR-PACKAGE><SHORT-NAME>d</SHORT-NAME>
  <ELEMENTS>
   <SERVICE-SW-COMPONENT-TYPE><SHORT-NAME>Dem</SHORT-NAME><INTERNAL-BEHAVIORS><SWC-INTERNAL-BEHAVIOR><SHORT-NAME>IB</SHORT-NAME>
